@@ -57,7 +57,7 @@ LEVEL_NOTE = ('Trusted: NumPy (the reference is NumPy on raw arrays of the '
               '`casting=`, `initial=` and zero-size arrays are outside the '
               'generator.')
 DESIGN_REF = 'DESIGN.md section 5, C17'
-BUDGET = {'quick': 4000, 'thorough': 100000}
+BUDGET = {'quick': 10000, 'thorough': 100000}
 TOLERANCES = {
     'values': 'bit-identical to the NumPy result (NaN entries compared by '
               'position only)',
@@ -84,6 +84,12 @@ ASSUMPTIONS = [
     '(the result lives in a space of the element\'s shape)',
     'no `where=`, `casting=`, `initial=`, `order=` keywords; no zero-size '
     'arrays; no overlapping views other than out being an operand itself',
+    'reductions with `dtype=` get an out of the result dtype: with an out of '
+    'another dtype NumPy accumulates in the out array itself (initial copy '
+    'cast straight to the out dtype, e.g. np.greater.reduce(c, axis=(), '
+    'dtype=bool, out=int_arr) gives 0 for c = 0.01), ODL computes in a '
+    'temporary of the requested dtype and casts afterwards - no caller '
+    'relies on either',
     'if NumPy rejects the call on the raw arrays nothing is asserted about '
     'ODL (rejecting is a pass, accepting is counted in the notes)',
     'documented rejections are passes: discretized reduce(keepdims=True), '
@@ -160,6 +166,12 @@ def _nout1(names):
 # --------------------------------------------------------------------------
 # strategies
 
+def _one_in(draw, n):
+    """True with probability ~1/n (Hypothesis over-weights the end points of
+    integer ranges, so the hit is an interior value)."""
+    return draw(st.sampled_from(range(n))) == (n // 2 if n > 2 else 0)
+
+
 def _shapes(tier_big=False):
     small = vs.small_shapes(min_ndim=1, max_ndim=3, min_side=1, max_side=5,
                             max_size=40)
@@ -223,7 +235,7 @@ def _pspace_sd(draw, dtype=None, power_only=True):
               'power': None}
     else:
         b = base()
-        if draw(st.integers(0, 5)) == 0:
+        if _one_in(draw, 6):
             b = {'kind': 'pspace', 'base': b, 'power': draw(
                 st.integers(1, 2)), 'weighting': None, 'exponent': 2.0}
         sd = {'kind': 'pspace', 'base': b, 'power': n}
@@ -317,7 +329,7 @@ def _operand(draw, sd, forms):
     if form == 'scalar':
         return {'form': 'scalar', 'value': draw(_scalar(dtype))}
     if form in ('ndarray', 'list'):
-        dt2 = dtype if draw(st.integers(0, 3)) else draw(
+        dt2 = dtype if not _one_in(draw, 4) else draw(
             st.sampled_from(DTYPES))
         return {'form': form, 'array': draw(vs.array_descs(
             shape, dt2, lo=-30.0, hi=30.0))}
@@ -327,7 +339,7 @@ def _operand(draw, sd, forms):
         cut = draw(st.integers(0, nd - 1)) if nd > 1 else 0
         sub = list(shape[cut:])
         for i in range(len(sub)):
-            if draw(st.integers(0, 3)) == 0:
+            if _one_in(draw, 4):
                 sub[i] = 1
         return {'form': 'ndarray', 'array': draw(vs.array_descs(
             sub, dtype, lo=-30.0, hi=30.0))}
@@ -343,7 +355,7 @@ def _out_desc(draw, ekind, kinds):
         kind = 'elem'
     od = {'kind': kind, 'order': draw(st.sampled_from(
         ['C', 'C', 'F', 'strided', 'rev'])), 'dtype': 'match'}
-    if kind not in ('x', 'other') and draw(st.integers(0, 7)) == 0:
+    if kind not in ('x', 'other') and _one_in(draw, 8):
         od['dtype'] = draw(st.sampled_from(
             ['float64', 'float32', 'complex128', 'int64']))
         od['order'] = 'C'
@@ -357,7 +369,7 @@ def _axis(draw, nd, method):
         opts = ['absent', 'absent', 'int', 'int', 'neg', 'neg', 'neg',
                 'tuple', 'tuple', 'tuple', 'tuple', 'none', 'none', 'empty']
     cls = draw(st.sampled_from(opts))
-    if draw(st.integers(0, 24)) == 0:
+    if _one_in(draw, 25):
         cls = 'bad'
     if cls == 'tuple' and nd >= 2 and draw(st.booleans()):
         # all but one axis (the sub-partition case with most ways to go wrong)
@@ -384,10 +396,10 @@ def _axis(draw, nd, method):
 
 
 def _kw_dtype(draw, name, dtype, p=4):
-    if draw(st.integers(0, p)) != 0:
+    if not _one_in(draw, p + 1):
         return None
     ok = KW_OK.get((name, dtype), [])
-    if ok and draw(st.integers(0, 7)) != 0:
+    if ok and not _one_in(draw, 8):
         return draw(st.sampled_from(ok))
     return draw(st.sampled_from(KW_DTYPES))
 
@@ -402,7 +414,7 @@ def _thin_scalar_out(draw, desc, nd, default_none=False):
     full = ax is None or (isinstance(ax, list) and
                           len(set(a % nd for a in ax)) == nd) or \
         (isinstance(ax, int) and nd == 1)
-    if full and desc['out'][0] is not None and draw(st.integers(0, 4)):
+    if full and desc['out'][0] is not None and not _one_in(draw, 5):
         desc['out'] = [None]
 
 
@@ -420,7 +432,7 @@ def _case(draw):
     if method == 'wrap':
         return draw(_wrap_case(ekind))
     if ekind == 'pspace' and method in ('at', 'reduce', 'reduceat', 'outer') \
-            and draw(st.integers(0, 3)) != 0:
+            and not _one_in(draw, 4):
         # power-space elements fail these methods wholesale (known finding
         # C17-K1); keep a trickle, spend the budget where the oracle decides
         ekind = draw(st.sampled_from(['tensor', 'discr']))
@@ -444,7 +456,7 @@ def _case(draw):
             cls, ax = _axis(draw, nd, 'reduce')
             if cls != 'absent':
                 kw['axis'] = ax
-            if draw(st.integers(0, 3)) == 0:
+            if _one_in(draw, 4):
                 kw['keepdims'] = draw(st.sampled_from([True, True, False]))
             name = {'sum': 'add', 'prod': 'multiply', 'min': 'minimum',
                     'max': 'maximum'}[desc['ufunc']]
@@ -461,7 +473,7 @@ def _case(draw):
     table = APPLICABLE[dtype]
     if method in ('reduce', 'accumulate', 'outer', 'reduceat'):
         pool = _binary(table)
-        if method == 'reduce' and draw(st.integers(0, 2)) == 0:
+        if method == 'reduce' and _one_in(draw, 3):
             pool = [n for n in ('add', 'multiply', 'maximum', 'minimum',
                                 'logical_or', 'bitwise_xor', 'hypot')
                     if n in pool] or pool
@@ -469,11 +481,11 @@ def _case(draw):
         pool = _nout1(table)
     elif method == '__call__':
         pool = table
-        if draw(st.integers(0, 6)) == 0:
+        if _one_in(draw, 7):
             pool = [n for n in table if getattr(np, n).nout == 2] + \
                 [n for n in APPLICABLE_EXTRA[dtype]
                  if getattr(np, n).nout == 2] or table
-        elif draw(st.integers(0, 7)) == 0 and APPLICABLE_EXTRA[dtype]:
+        elif _one_in(draw, 8) and APPLICABLE_EXTRA[dtype]:
             pool = APPLICABLE_EXTRA[dtype]
     else:
         pool = table
@@ -525,7 +537,7 @@ def _case(draw):
         cls, ax = _axis(draw, nd, 'reduce')
         if cls != 'absent':
             kw['axis'] = ax
-        if draw(st.integers(0, 3)) == 0:
+        if _one_in(draw, 4):
             kw['keepdims'] = draw(st.sampled_from([True, True, False]))
         kd = _kw_dtype(draw, name, dtype)
         if kd is not None:
@@ -559,7 +571,7 @@ def _case(draw):
         form = draw(st.sampled_from(['other', 'other', 'other', 'self',
                                      'ndarray', 'scalar']))
         if form == 'other':
-            dt2 = dtype if draw(st.integers(0, 2)) else draw(st.sampled_from(
+            dt2 = dtype if not _one_in(draw, 3) else draw(st.sampled_from(
                 DISCR_DTYPES if ekind == 'discr' else DTYPES))
             if ekind == 'tensor':
                 sd2 = draw(_tensor_sd(dt2, draw(vs.small_shapes(1, 2, 1, 4,
@@ -620,7 +632,7 @@ def _wrap_case(draw, ekind):
         sd = draw(_pspace_sd())
     dtype = _sd_dtype(sd)
     shape = _sd_shape(sd)
-    adt = dtype if draw(st.integers(0, 3)) else draw(st.sampled_from(
+    adt = dtype if not _one_in(draw, 4) else draw(st.sampled_from(
         [d for d in DTYPES if np.can_cast(d, dtype, 'same_kind')]))
     desc = {'method': 'wrap', 'ekind': ekind, 'space': sd,
             'array': draw(vs.array_descs(shape, adt, lo=-30.0, hi=30.0)),
@@ -1206,6 +1218,9 @@ def _run_ufunc(desc):
                 odt = np.asarray(ref0s[i]).dtype
             else:
                 oshape, odt = shape, in_dtype
+            if od['dtype'] != 'match' and 'dtype' in kw and method in (
+                    'reduce', 'accumulate', 'reduceat'):
+                od = dict(od, dtype='match')    # see ASSUMPTIONS
             if od['kind'] == 'x' and (tuple(oshape) != tuple(shape)):
                 od = dict(od, kind='elem')
             if od['kind'] == 'x' and 'x' in out_labels:
@@ -1616,6 +1631,8 @@ def _run_legacy_red(desc):
     if np_exc is None:
         sig.dt = _dtclass(in_dtype, [np.asarray(ref0).dtype])
         if od is not None:
+            if 'dtype' in kw:
+                od = dict(od, dtype='match')    # see ASSUMPTIONS
             o_odl, o_ref, lab = _make_out(od, ekind, sd, x_op,
                                           np.asarray(ref0).shape,
                                           np.asarray(ref0).dtype)
